@@ -104,6 +104,20 @@ func checkC05(c *core.Ctx) {
 		if infra(c, rd) || infra(c, rs) {
 			return
 		}
+		if i%4 == 1 && rs.OK() {
+			// the note names again, written with -o (FILE argument, existing older file): what the file holds is what
+			// the standard output carried
+			out := c.Scratch.File("names.yml", []byte("- values: [9]\n- values: [9]\n"))
+			ro := run(c, nil, append(append([]string{}, sargs...), "-o", out, c.Scratch.File("names.txt", []byte(st)))...)
+			c.Eval(1)
+			if infra(c, ro) {
+				return
+			}
+			if got := readFileOrNil(out); !ro.OK() || !bytes.Equal(got, rs.Stdout) {
+				c.Violate("notation", i, "notation:o-file", fmt.Sprintf("text conv syllable --key %s -o FILE (ok=%v) leaves other instances in the file than it prints to the standard output: %s (%q)", start, ro.OK(), firstLineDiff(rs.Stdout, got), short(st, 200)), map[string]any{"note_text": st, "key": start, "run": obs(ro)})
+				return
+			}
+		}
 		class := "notation"
 		if wrap {
 			class = "notation:wraparound-interval"
@@ -145,6 +159,45 @@ func checkC05(c *core.Ctx) {
 		if c.WantSample() {
 			c.Sample(map[string]any{"degree_text": short(dt, 300), "note_text": short(st, 300), "key": start})
 		}
+	})
+
+	// a piece of more than 65,536 chords that leaves its starting key early on: the key in force is carried to the
+	// very end, in note names as in degrees
+	c.Stream("verylong", c.N(1, 4), func(i int, r *rand.Rand) {
+		k1, k2 := keys[r.Intn(len(keys))], keys[r.Intn(len(keys))]
+		n := 70000 + r.Intn(3000)
+		var p model.Piece
+		for j := 0; j < n; j++ {
+			in := model.Instance{Chord: &model.ChordSpec{Deg: theory.Interval{N: 1 + j%7, Q: []theory.Quality{theory.Perfect, theory.Major, theory.Major, theory.Perfect, theory.Perfect, theory.Major, theory.Major}[j%7]}, Symbol: []string{"", "m", "7"}[j%3]}, Values: []model.Frac{{Num: 1, Den: 1}}}
+			if j == 16+i {
+				in.Key = k2.String()
+			}
+			if j%97 == 50 {
+				in.Chord = nil
+			}
+			p.Inst = append(p.Inst, in)
+		}
+		dt, ok1 := p.DegreeTextPiece(model.TextOpts{Sep: "\n"})
+		st, ok2 := p.SyllableTextPiece(k1.String(), model.TextOpts{Sep: "\n"})
+		if !ok1 || !ok2 {
+			return
+		}
+		rd := c.Crd.Run(runner.Opt{Stdin: []byte(dt), CPUSec: 300}, "text", "conv", "degree")
+		rs := c.Crd.Run(runner.Opt{Stdin: []byte(st), CPUSec: 300}, "text", "conv", "syllable", "--key", k1.String())
+		c.Eval(2)
+		if infra(c, rd) || infra(c, rs) {
+			return
+		}
+		det := map[string]any{"chords": n, "start_key": k1.String(), "second_key": k2.String(), "degree_run": short(string(rd.Stderr), 300), "note_run": short(string(rs.Stderr), 300)}
+		if a := abnormal(rd) + abnormal(rs); a != "" || !rd.OK() || !rs.OK() {
+			c.Violate("verylong", i, "verylong:failed", fmt.Sprintf("a piece of %d chords (%s, then %s from chord %d on) is not converted: degrees ok=%v, note names ok=%v %s", n, k1, k2, 16+i, rd.OK(), rs.OK(), a), det)
+			return
+		}
+		if !bytes.Equal(rd.Stdout, rs.Stdout) {
+			c.Violate("verylong", i, "verylong:differ", fmt.Sprintf("a piece of %d chords (%s, then %s from chord %d on) converts differently from degrees and from note names: %s", n, k1, k2, 16+i, firstLineDiff(rd.Stdout, rs.Stdout)), det)
+			return
+		}
+		c.Nontrivial(fmt.Sprintf("verylong%d", i))
 	})
 
 	// playback in two keys
